@@ -748,6 +748,9 @@ def compile_gbnf_from_meta(meta: dict) -> str:
     from octave_mcp.core.schema_extractor import FieldDefinition, SchemaDefinition
 
     schema_type = meta.get("TYPE", "UNKNOWN")
+    if not isinstance(schema_type, str):
+        # META.TYPE is free-form in a lenient document (a number, a list, null): the grammar needs a text name
+        schema_type = str(schema_type) if isinstance(schema_type, int | float) else "UNKNOWN"
 
     # Create schema from META
     schema = SchemaDefinition(
